@@ -11,9 +11,11 @@ import (
 	"fmt"
 	"io"
 	"os"
+	"path/filepath"
 	"sort"
 	"strconv"
 	"strings"
+	"sync"
 	"sync/atomic"
 	"time"
 
@@ -596,7 +598,7 @@ func (sc matchScenario) build() (func(), func(*vsched.Exec) string, func() strin
 			msg = fmt.Sprintf("PENDING-LEFT %d entries in the pending map after quiescence", n)
 			return
 		}
-		if !conn.Done().Closed() {
+		if !doneClosed(conn.Done()) {
 			msg = "NOT-DONE Done() is not closed after Close"
 			return
 		}
@@ -627,8 +629,139 @@ func classify(o string) string {
 	return "other"
 }
 
+// doneClosed works on both builds of the package (rewritten: *vsched.Chan; race pass: a plain channel).
+func doneClosed(d any) bool {
+	switch c := d.(type) {
+	case interface{ Closed() bool }:
+		return c.Closed()
+	case <-chan struct{}:
+		select {
+		case <-c:
+			return true
+		default:
+			return false
+		}
+	}
+	return false
+}
+
+// ---------- free-running pass (built with -race, package under test not rewritten) ----------
+
+type bufPipe struct {
+	mu     sync.Mutex
+	cond   *sync.Cond
+	buf    []byte
+	closed bool
+}
+
+func newBufPipe() *bufPipe { p := &bufPipe{}; p.cond = sync.NewCond(&p.mu); return p }
+func (p *bufPipe) Read(b []byte) (int, error) {
+	p.mu.Lock()
+	defer p.mu.Unlock()
+	for len(p.buf) == 0 && !p.closed {
+		p.cond.Wait()
+	}
+	if len(p.buf) == 0 {
+		return 0, io.EOF
+	}
+	n := copy(b, p.buf)
+	p.buf = p.buf[n:]
+	return n, nil
+}
+func (p *bufPipe) Write(b []byte) (int, error) {
+	p.mu.Lock()
+	defer p.mu.Unlock()
+	if p.closed {
+		return 0, io.ErrClosedPipe
+	}
+	p.buf = append(p.buf, b...)
+	p.cond.Broadcast()
+	return len(b), nil
+}
+func (p *bufPipe) close() { p.mu.Lock(); p.closed = true; p.cond.Broadcast(); p.mu.Unlock() }
+
+type duplex struct{ r, w *bufPipe }
+
+func (d duplex) Read(b []byte) (int, error)  { return d.r.Read(b) }
+func (d duplex) Write(b []byte) (int, error) { return d.w.Write(b) }
+func (d duplex) Close() error                { d.r.close(); d.w.close(); return nil }
+
+// raceMode connects two real Conns over an in-memory pipe: several goroutines call concurrently in both directions,
+// some calls are cancelled while in flight, notifications are mixed in. Every call that returns without error must
+// carry the echo of its own parameters; the rest of the verdict is the race detector's.
+func raceMode() {
+	const callers, perCaller = 6, 150
+	// unbounded in-memory transport: with a synchronous pipe two read loops that are both writing a reply wait for
+	// each other, which is a property of such a transport and not of the connection
+	ab, ba := newBufPipe(), newBufPipe()
+	left := jsonrpc2.NewConn(jsonrpc2.NewStream(duplex{r: ba, w: ab}))
+	right := jsonrpc2.NewConn(jsonrpc2.NewStream(duplex{r: ab, w: ba}))
+	ctx := context.Background()
+	echo := func(ctx context.Context, reply jsonrpc2.Replier, req jsonrpc2.Request) error {
+		if _, isCall := req.(*jsonrpc2.Call); !isCall {
+			return reply(ctx, nil, nil)
+		}
+		var p map[string]any
+		json.Unmarshal(req.Params(), &p)
+		return reply(ctx, map[string]any{"echo": p}, nil)
+	}
+	left.Go(ctx, echo)
+	right.Go(ctx, echo)
+	var wg sync.WaitGroup
+	var mu sync.Mutex
+	mismatch := ""
+	okCalls, cancelledCalls := 0, 0
+	for g := 0; g < callers; g++ {
+		g := g
+		from := left
+		if g%2 == 1 {
+			from = right
+		}
+		wg.Add(1)
+		go func() {
+			defer wg.Done()
+			for k := 0; k < perCaller; k++ {
+				cctx, cancel := context.WithCancel(ctx)
+				if k%5 == 4 {
+					go cancel() // races with the response
+				}
+				if k%7 == 0 {
+					from.Notify(ctx, "n/note", map[string]any{"from": g})
+				}
+				var out map[string]any
+				_, err := from.Call(cctx, "m/call", map[string]any{"caller": g, "n": k}, &out)
+				cancel()
+				mu.Lock()
+				if err != nil {
+					if !errors.Is(err, context.Canceled) {
+						mismatch = fmt.Sprintf("caller %d call %d failed: %v", g, k, err)
+					}
+					cancelledCalls++
+				} else {
+					okCalls++
+					e, _ := out["echo"].(map[string]any)
+					if fmt.Sprint(e["caller"]) != fmt.Sprint(g) || fmt.Sprint(e["n"]) != fmt.Sprint(k) {
+						mismatch = fmt.Sprintf("caller %d call %d received %v: not the response to its own call", g, k, out)
+					}
+				}
+				mu.Unlock()
+			}
+		}()
+	}
+	wg.Wait()
+	left.Close()
+	right.Close()
+	res, _ := json.Marshal(map[string]any{"callers": callers, "calls_each": perCaller, "calls_answered": okCalls, "calls_cancelled": cancelledCalls, "mismatch": mismatch})
+	os.WriteFile(filepath.Join(os.Getenv("VERIF_SCRATCH"), "race.json"), res, 0o644)
+}
+
 func main() {
+	if len(os.Args) > 1 && os.Args[len(os.Args)-1] == "race" {
+		raceMode()
+		return
+	}
 	run = vlib.Start("C18", "model_checking")
+	run.RacePass("between concurrent calls, cancellations and notifications on two connected Conns")
 	// watchdog for real (unscheduled) hangs in the framing part
 	go func() {
 		last := int64(-1)
